@@ -9,6 +9,10 @@ CHECKS = {
   text="Stateful property-based testing: generated histories of topology edits (valid and invalid arguments) are applied to the real Bondmachine and to a reference model of named bonds; well-formedness and bond-set equality are checked after every edit. Held on everything generated; not a proof.",
   note="Trusted: the reference model in harness/c10 (written from the statement and the documented renumbering), rapid's generators. Negative ids are outside the domain.",
   technique="property-based testing (rapid), stateful/model-based generation of edit histories against a reference model"),
+ "C09": dict(
+  text="Property-based testing over generated multi-processor machines, stimuli, seeded schedule perturbation (verif-tagged yield hook, GOMAXPROCS 1..16) and concurrency plans (copies of the same machine sharing one Bondmachine, different machines, concurrent SinglePipelineSimulate): the per-tick digest of the complete VM state must equal the solo unperturbed run; the same binary runs under the Go race detector (a report is a violation). Exploration of schedules, not exhaustive. Found D7 and D11 (both fixed in /repo).",
+  note="Trusted: digest covers processors' PC/registers/memory/ports/flags/deferred and extra state and all bond registers; the race detector; schedules the hook and GOMAXPROCS cannot provoke are not explored.",
+  technique="property-based testing (rapid) with injected-yield schedule fuzzing, differential against the solo run, plus the race detector as sanitizer"),
  "C17": dict(
   text="Property-based testing over generated machines and batch plans (sequential and concurrent callers of SinglePipelineSimulate / Fitness_default): goroutine accounting after a settle loop must not grow with the number of finished simulations. Exploration; found D9 (fixed in /repo).",
   note="Trusted: runtime.NumGoroutine and the settle loop; retained heap is reported only through the goroutine count (a leaked worker pins its VM).",
@@ -24,7 +28,6 @@ PENDING = {
  "C06": "check under construction (planned: dataflow evaluator vs every partition)",
  "C07": "check under construction (planned: repeated-run byte equality)",
  "C08": "check under construction (planned: matcher cross-matching + export/import round-trip)",
- "C09": "check under construction (planned: schedule-perturbed trace equality + race detector)",
  "C11": "check under construction (planned: save/load round-trip with reflection walk)",
  "C12": "check under construction (planned: Go-subset evaluator vs compiled machine, termination under forced schedules)",
  "C13": "check under construction (planned: LIFO/FIFO HDL vs abstract sequence under generated agents)",
@@ -34,7 +37,7 @@ PENDING = {
  "C18": "check under construction (planned: lint of generated file sets with /verif's Verilog front end)",
 }
 
-HOOK_COMMITS = []
+HOOK_COMMITS = ["ab27f8d"]
 
 def main():
     checks = []
